@@ -34,6 +34,9 @@ class ExpandDims(ArrayExpr):
         meta = self.array._meta
         for ax in sorted(self.axes):
             meta = np.expand_dims(meta, axis=ax)
+        if meta.size:
+            # a 0-d input's meta holds one element: keep the meta empty
+            meta = meta[(slice(0, 0),) * meta.ndim]
         return meta
 
     @functools.cached_property
